@@ -87,7 +87,9 @@ struct C16 : Profile {
     std::vector<std::string> ctxs = {"T", "U1", "U2"}; int nclone = 0;
     for (int i = 0; i < n; ++i) {
       std::string m = MODS[r.weighted({5, 3, 1})];
-      switch (r.weighted({3, 1.5, 0.7, 4, 1.2, 0.8, 5, 2, 2, 1, 1, 1.5, 1})) {
+      switch (r.weighted({3, 1.5, 0.7, 4, 1.2, 0.8, 5, 2, 2, 1, 1, 1.5, 1, 0.8, 1.2})) {
+      case 13: st.push_back(step("H", "purge", r.pick(ctxs))); break;
+      case 14: st.push_back(step(r.pick(ctxs), "import_path_expr", m)); break;
       case 0: st.push_back(step("H", "grant", m)); break;
       case 1: st.push_back(step("H", "clear")); break;
       case 2: st.push_back(step("H", r.chance(0.5) ? "trust" : "untrust", r.pick(ctxs))); break;
@@ -155,6 +157,7 @@ struct C16 : Profile {
       if (a == "H") {
         if (op == "grant") { bloc_unban_plugin(arg.c_str()); G.insert(arg); ++res.faults["grant"]; }
         else if (op == "clear") { bloc_clear_plugin_permissions(); G.clear(); ++res.faults["clear_grants"]; }
+        else if (op == "purge" && cx.count(arg)) { cx[arg].ctx->purge(); cx[arg].fmod.clear(); ++res.faults["purge_context"]; }   // forgets variables and functions, never the trust the host gave
         else if ((op == "trust" || op == "untrust") && cx.count(arg)) { cx[arg].ctx->trusted(op == "trust"); cx[arg].trusted = (op == "trust"); ++res.faults["flip_trust"]; }
         continue;
       }
@@ -168,6 +171,16 @@ struct C16 : Profile {
         bool ok = compile_run(a, "import \"" + path + "\";\n", c.trusted, "import by path");
         if (ok) L.insert(arg);
         if (!c.trusted) ++res.probes["path_import_in_untrusted"];
+      } else if (op == "import_path_expr") {
+        // other spellings of a path: whatever the parser makes of them, an untrusted context must never get a library mapped
+        std::string path = bindir() + "/libbloc_" + arg + ".so.2.9"; static const char* FORM[] = {"import str(\"%s\");\n", "import (\"%s\");\n", "import \"\" + \"%s\";\n", "import lower(\"%s\");\n", "import trim(\" %s \");\n", "import substr(\"%s\", 0);\n"};
+        char buf[1024]; snprintf(buf, sizeof buf, FORM[fnv1a(path + a) % 6], path.c_str());
+        Ctx& cc = cx[a]; bloc::Executable* exe = nullptr; Outcome o = parse_text(*cc.ctx, buf, exe);
+        ev.add(a + ":import by path expression:" + (o.ok() ? "accepted" : "rejected"));
+        if (o.kind == Outcome::FOREIGN) fail("C16/foreign-exception", o.text);
+        if (o.ok() && !cc.trusted) fail("C16/compile-accepted-although-restricted", a + " (untrusted): import by path expression '" + printable(buf, 100) + "'");
+        if (o.ok()) { cc.exes.push_back(exe); L.insert(arg); }
+        if (!cc.trusted) ++res.probes["path_expression_import_in_untrusted"];
       } else if (op == "include") {
         compile_run(a, "include \"" + incfile + "\";\n", c.trusted, "include");
         if (!c.trusted) ++res.probes["include_in_untrusted"];
